@@ -1492,6 +1492,61 @@ def gen_drift_case(rng, k):
     return c
 
 
+PLUG_OPS = ('plugNew', 'plugAdd', 'plugClear', 'plugGet')
+PLUG_SCENARIOS = ['private-add-then-global-get', 'private-clear-after-global-get', 'private-get-then-global-get',
+                  'private-created-before-global-history']
+
+
+def gen_plugin_case(rng, k):
+    """histories of the global cache interleaved with the history of a SECOND cache object - an instance of a subclass of
+    the cache class, as a plugin keeping its own cache would define, created after the global one exists:
+      ['plugNew']          the subclass instantiated (again)
+      ['plugAdd', m, k]    a hand-made opacity of molecule m registered in the private cache
+      ['plugClear']        the private cache cleared
+      ['plugGet', m]       m requested from the private cache (whatever that returns or raises)
+    The operations on the private cache are no part of the global cache's history: the model (CacheSM.step / stepK) is run
+    on the global cache's own operations only, and what the global cache serves is judged against that.  Four fixed tails
+    (quota, every run): a private registration / a private clear / a private lookup of molecule m between two global
+    lookups of m; the private cache created and filled before the global history starts."""
+    isk = (k // 4) % 2 == 1
+    c = gen_kcache_case(rng, k) if isk else gen_cache_case(rng, k)
+    fs, ops = c['fs'], c['ops']
+    full_dirs = [i for i, d in enumerate(fs) if d['exists'] and d['files']]
+    if not full_dirs:
+        fs[0] = dict(exists=True, files=[('kpickle' if isk else 'pickle', 'H2O.pickle', 'H2O', 1000 * k + 77),
+                                         ('kpickle' if isk else 'pickle', 'CO2.pickle', 'CO2', 1000 * k + 78)])
+        full_dirs = [0]
+    d0 = full_dirs[int(rng.integers(0, len(full_dirs)))]
+    mols = sorted({f[2] for f in fs[d0]['files']})
+    m = mols[int(rng.integers(0, len(mols)))]
+    for _ in range(int(rng.integers(2, 9))):
+        r = rng.random()
+        mm = CACHE_MOLS[int(rng.integers(0, 3))]
+        if r < 0.4:
+            ev = ['plugAdd', mm, int(rng.integers(0, 2))]
+        elif r < 0.6:
+            ev = ['plugClear']
+        elif r < 0.9:
+            ev = ['plugGet', mm]
+        else:
+            ev = ['plugNew']
+        ops.insert(int(rng.integers(0, len(ops) + 1)), ev)
+    a = int(rng.integers(0, 2))
+    scen = PLUG_SCENARIOS[k % 4]
+    if scen == 'private-add-then-global-get':
+        tail = [['setPath', d0], ['clear'], ['plugClear'], ['plugAdd', m, a], ['get', m], ['get', m], ['plugGet', m]]
+    elif scen == 'private-clear-after-global-get':
+        tail = [['setPath', d0], ['get', m], ['plugClear'], ['get', m], ['plugAdd', m, a], ['get', m]]
+    elif scen == 'private-get-then-global-get':
+        tail = [['setPath', d0], ['clear'], ['plugClear'], ['plugGet', m], ['get', m], ['plugClear'], ['get', m]]
+    else:
+        ops[:0] = [['plugNew'], ['plugAdd', m, a]]
+        tail = [['setPath', d0], ['get', m], ['get', m]]
+    c['ops'] = ops + tail
+    c['plugin'] = scen
+    return c
+
+
 def eval_cache(ctx, c):
     from taurex.cache import OpacityCache, GlobalCache
     from taurex.cache.ktablecache import KTableCache
@@ -1549,10 +1604,12 @@ def eval_cache(ctx, c):
             with open(os.path.join(other_dir, c['other']['bad'] + '.pickle'), 'wb') as fh:
                 fh.write(b'\x80\x04\x95\x10')
             file_ids[os.path.join(other_dir, c['other']['bad'] + '.pickle')] = fid      # (a constructor call on it is logged)
-        toks.append(str(len(ops)))
+        # (operations on a plugin's private cache are no part of the global cache's history: the model runs without them)
+        gops = [o for o in ops if o[0] not in PLUG_OPS]
+        toks.append(str(len(gops)))
         def opt(v):
             return ['0'] if v is None else ['1', str(int(v))]
-        for o in ops:
+        for o in gops:
             code = ['get', 'setPath', 'setInterp', 'setMem', 'clear', 'add', 'unsetInterp', 'unsetPath', 'parfile',
                     'objMode', 'gcInterp', 'loadOther'].index(o[0])
             toks.append(str(code))
@@ -1602,8 +1659,44 @@ def eval_cache(ctx, c):
         cur_path = None
         rlog = []
         sig = []
-        for n, (o, ms) in enumerate(zip(ops, msteps)):
+        hand = set()                    # id() of objects registered by hand in the GLOBAL cache (add_opacity)
+        plug_cls = None                 # the plugin's cache class: a subclass of the cache class
+        plug_objs = {}                  # id() of objects registered in / served by the private cache -> molecule
+        plug_since = {}                 # molecule -> last private-cache op naming it (or a private clear) since its last global get
+        mit = iter(msteps)
+        for n, o in enumerate(ops):
             before = len(rec.log)
+            if o[0] in PLUG_OPS:
+                # ---- the second cache object; nothing it does is an operation of the global cache
+                if plug_cls is None:
+                    plug_cls = type('Plugin' + type(oc).__name__, (type(oc),), {})
+                pc = plug_cls()
+                if o[0] == 'plugAdd':
+                    mo = (mem_opacity(small_ktable(11), MODES[o[2]], weights=[0.4, 0.6]) if isk
+                          else mem_opacity(small_table(11), MODES[o[2]]))
+                    type(mo).moleculeName = o[1]
+                    keep.append(mo)
+                    plug_objs[id(mo)] = o[1]
+                    pc.add_opacity(mo)
+                    plug_since[o[1]] = 'plugAdd'
+                elif o[0] == 'plugClear':
+                    pc.clear_cache()
+                    for mm in CACHE_MOLS:
+                        plug_since[mm] = 'plugClear'
+                elif o[0] == 'plugGet':
+                    try:
+                        po = pc[o[1]]
+                        keep.append(po)
+                        plug_objs.setdefault(id(po), o[1])
+                        ctx.bucket(tag + ':plugin-cache:plugGet:served')
+                    except Exception as e:
+                        ctx.bucket(tag + ':plugin-cache:plugGet:raised:' + type(e).__name__)
+                    plug_since[o[1]] = 'plugGet'
+                del rec.log[before:]    # (files the private cache constructs are its own loads, not the global cache's)
+                ctx.bucket(tag + ':plugin-cache:op:' + o[0])
+                sig.append('P' + o[0][4])
+                continue
+            ms = next(mit)
             r = dict(code=2)
             if o[0] == 'get':
                 try:
@@ -1695,6 +1788,7 @@ def eval_cache(ctx, c):
                       else mem_opacity(small_table(7), MODES[o[2]]))
                 type(mo).moleculeName = o[1]
                 keep.append(mo)
+                hand.add(id(mo))
                 oc.add_opacity(mo)
             new_loads = rec.log[before:]
             for fn in new_loads:
@@ -1721,6 +1815,19 @@ def eval_cache(ctx, c):
                 if seg_loads[o[1]] > 1:
                     ctx.violation(vk + 'loaded-more-than-once', 'a molecule was constructed more than once between two cache '
                                   'clears', full, dict(step=n, mol=o[1], files=new_loads))
+                if o[1] in plug_since:
+                    ctx.bucket(tag + ':plugin-cache:global-get-after-' + plug_since.pop(o[1]) + '-of-same-molecule')
+                if obj is not None and getattr(obj, '_filename', None) not in file_ids and id(obj) not in hand:
+                    # served by the global cache, yet neither loaded from a file of this case nor registered in it by hand
+                    ctx.violation(vk + 'served-object-not-loaded-from-path', 'the cache served an object that it neither '
+                                  'loaded from the configured ' + pathkey + ' nor was given with its own add_opacity'
+                                  + (' (the object belongs to another cache object, a subclass instance)'
+                                     if id(obj) in plug_objs else ''), full,
+                                  dict(step=n, mol=o[1], served=type(obj).__name__, of_private_cache=id(obj) in plug_objs))
+                elif obj is not None and id(obj) in plug_objs and id(obj) not in hand:
+                    # a file object the private cache loaded for itself (never given to the global cache)
+                    ctx.violation(vk + 'served-object-of-another-cache', 'the cache served the object another cache object '
+                                  '(a subclass instance) had loaded for itself', full, dict(step=n, mol=o[1]))
                 if obj is not None:
                     if o[1] in segment and segment[o[1]] is not obj:
                         ctx.violation(vk + 'served-different-object', 'the cache served two different objects for one '
@@ -1762,6 +1869,8 @@ def eval_cache(ctx, c):
         ctx.bucket(tag + ':ops', len(ops))
         if c.get('drift'):
             ctx.bucket(tag + ':drift-history:' + c['drift'])
+        if c.get('plugin'):
+            ctx.bucket(tag + ':plugin-history:' + c['plugin'])
         keep = None
 
 
@@ -1855,6 +1964,30 @@ def gen_ciacache_case(rng, k):
     return dict(kind='ciacache', fs=fs, ops=ops)
 
 
+def gen_ciaplugin_case(rng, k):
+    """a CIA cache history interleaved with operations on a second cache object - an instance of a subclass of CIACache
+    created after the global one exists: ['plugNew'], ['plugAdd', pair] (a hand-made CIA object registered in the private
+    cache), ['plugGet', pair].  They are no part of the global cache's history (the model runs without them).  Fixed tail
+    (every case): a private registration, then a private lookup, of a pair of the configured path right before the global
+    cache is asked for it for the first time."""
+    c = gen_ciacache_case(rng, k)
+    fs, ops = c['fs'], c['ops']
+    for _ in range(int(rng.integers(1, 6))):
+        r = rng.random()
+        pr = CIA_PAIRS[int(rng.integers(0, 3))]
+        ev = ['plugAdd', pr] if r < 0.5 else (['plugGet', pr] if r < 0.9 else ['plugNew'])
+        ops.insert(int(rng.integers(0, len(ops) + 1)), ev)
+    full_dirs = [i for i, d in enumerate(fs) if d['exists'] and d['files']]
+    if full_dirs:
+        d0 = full_dirs[int(rng.integers(0, len(full_dirs)))]
+        asked = {o[1] for o in ops if o[0] in ('get', 'add')}
+        pairs = sorted({f[2] for f in fs[d0]['files']} - asked) or sorted({f[2] for f in fs[d0]['files']})
+        pr = pairs[int(rng.integers(0, len(pairs)))]
+        ops += [['setPath', ['single', d0]], ['plugAdd', pr], ['plugGet', pr], ['get', pr], ['get', pr]]
+    c['plugin'] = 'private-add-then-global-get'
+    return c
+
+
 def eval_ciacache(ctx, c):
     """a history on the real CIACache in lock-step with `CiaSM.step` (driver op c14.ciacache)"""
     from taurex.cache import CIACache
@@ -1896,8 +2029,10 @@ def eval_ciacache(ctx, c):
                 lst.append((path, pair, inner))
                 fid += 1
             scan.append(lst)
-        toks.append(str(len(ops)))
-        for o in ops:
+        # (operations on a plugin's private cache are no part of the global cache's history: the model runs without them)
+        gops = [o for o in ops if o[0] not in PLUG_OPS]
+        toks.append(str(len(gops)))
+        for o in gops:
             if o[0] == 'get':
                 toks += ['0', C.S(o[1])]
             elif o[0] == 'setPath':
@@ -1929,11 +2064,49 @@ def eval_ciacache(ctx, c):
         cur = []                        # the directories of the configured path
         rlog = []
         sig = []
-        for n, (o, ms) in enumerate(zip(ops, msteps)):
+        plug_cls = None                 # the plugin's cache class: a subclass of CIACache
+        plug_objs = set()               # id() of objects registered in / served by the private cache
+        plug_since = {}
+        mit = iter(msteps)
+        for n, o in enumerate(ops):
             before = len(rec.log)
+            if o[0] in PLUG_OPS:
+                # ---- the second cache object; nothing it does is an operation of the global cache
+                if plug_cls is None:
+                    plug_cls = type('PluginCIACache', (CIACache,), {})
+                pc = plug_cls()
+                if o[0] == 'plugAdd':
+                    class PlugCIA(CIA):
+                        def __init__(self, pair):
+                            super().__init__('PlugCIA', pair)
+                    mo = PlugCIA(o[1])
+                    keep.append(mo)
+                    plug_objs.add(id(mo))
+                    try:
+                        pc.add_cia(mo)
+                    except Exception as e:
+                        if str(e) != DUP:
+                            raise
+                    plug_since[o[1]] = 'plugAdd'
+                elif o[0] == 'plugGet':
+                    try:
+                        po = pc[o[1]]
+                        keep.append(po)
+                        plug_objs.add(id(po))
+                        ctx.bucket('ciacache:plugin-cache:plugGet:served')
+                    except Exception as e:
+                        ctx.bucket('ciacache:plugin-cache:plugGet:raised')
+                    plug_since[o[1]] = 'plugGet'
+                del rec.log[before:]    # (files the private cache constructs are its own loads, not the global cache's)
+                ctx.bucket('ciacache:plugin-cache:op:' + o[0])
+                sig.append('P' + o[0][4])
+                continue
+            ms = next(mit)
             r = dict(code=2)
             obj = None
             if o[0] == 'get':
+                if o[1] in plug_since:
+                    ctx.bucket('ciacache:plugin-cache:global-get-after-' + plug_since.pop(o[1]) + '-of-same-pair')
                 try:
                     obj = cc[o[1]]
                     keep.append(obj)
@@ -1982,6 +2155,10 @@ def eval_ciacache(ctx, c):
                 clean = all(pr == inn for lst in scan for (_, pr, inn) in lst if o[1] in (pr, inn))
                 first = next((pth for d_ in cur for di_, dd_ in enumerate(dirs[:len(fs)]) if dd_ == d_
                               for (pth, pr, _) in scan[di_] if pr == o[1]), None)
+                if obj is not None and id(obj) in plug_objs:
+                    ctx.violation('cia-served-object-of-another-cache', 'the CIA cache served an object that another cache '
+                                  'object (a subclass instance) was given or had loaded for itself', full,
+                                  dict(step=n, pair=o[1], served=type(obj).__name__))
                 if obj is not None:
                     if o[1] in served and served[o[1]] is not obj:
                         ctx.violation('cia-served-different-object', 'the CIA cache served two different objects for one pair',
@@ -2032,6 +2209,8 @@ def eval_ciacache(ctx, c):
         ctx.case(key=('ciacache', ''.join(sig)[:60]), sample=dict(kind='ciacache', ops=ops[:10], trace=sig[:10]),
                  bucket='ciacache:history')
         ctx.bucket('ciacache:ops', len(ops))
+        if c.get('plugin'):
+            ctx.bucket('ciacache:plugin-history:' + c['plugin'])
         keep = None
 
 
@@ -2177,6 +2356,11 @@ def run(ctx):
     # naming another directory
     for k in range(ctx.n(48, 900)):
         eval_cache(ctx, gen_drift_case(ctx.rng, k))
+    # (round-8 stream, after the older ones) the global cache's history interleaved with that of a plugin's private cache
+    for k in range(ctx.n(40, 800)):
+        eval_cache(ctx, gen_plugin_case(ctx.rng, k))
+    for k in range(ctx.n(24, 500)):
+        eval_ciacache(ctx, gen_ciaplugin_case(ctx.rng, k))
 
 
 def replay(ctx, case):
